@@ -17,6 +17,7 @@ import OFV.Proofs.C04Rev4
 import OFV.Proofs.C04JFinal
 import OFV.Proofs.C04RevInv
 import OFV.Proofs.C04JHam
+import OFV.Proofs.C04Mul
 
 namespace OFV.C04
 open OFV OFV.Spec OFV.Model OFV.Model.C04 OFV.Sem
@@ -359,7 +360,80 @@ theorem jw_dual_basis_hamiltonian_sound (tol : Rat) (l : List Nat) (spinless : B
     (fun u v hu hv => (he u ((Jel.allPoints_mem l u).2 hu) v ((Jel.allPoints_mem l v).2 hv)).2)
     hs hokD hokM m x
 
+/-! ### `jordan_wigner` is an algebra homomorphism that preserves Hermiticity (operator level, every input) -/
+
+/-- **multiplicativity**: `jordan_wigner(A) * jordan_wigner(B)` (QubitOperator product) has the matrix elements of
+`A * B` (FermionOperator product), hence of `jordan_wigner(A * B)` — every pair of FermionOperators, every pair of
+basis states; exact-regime flags of the three transforms -/
+theorem jw_multiplicative (tol : Rat) (htol : tol * tol ≤ 1 / 4) (A B : Model.Op)
+    (hA : ∀ tc ∈ A, ∀ f ∈ tc.1, f.2 ≤ 1) (hB : ∀ tc ∈ B, ∀ f ∈ tc.1, f.2 ≤ 1)
+    (hokA : jwFermionOk tol A = true) (hokB : jwFermionOk tol B = true)
+    (hokAB : jwFermionOk tol (mulOp .fermion A B) = true) (m x : Nat) :
+    GV.coeff (applyOp .qubit (mulOp .qubit (jwFermion tol A) (jwFermion tol B)) [m]) [x]
+        = GV.coeff (applyOp .fermion (mulOp .fermion A B) [m]) [x]
+    ∧ GV.coeff (applyOp .qubit (jwFermion tol (mulOp .fermion A B)) [m]) [x]
+        = GV.coeff (applyOp .qubit (mulOp .qubit (jwFermion tol A) (jwFermion tol B)) [m]) [x] := by
+  have h1 : GV.coeff (applyOp .qubit (mulOp .qubit (jwFermion tol A) (jwFermion tol B)) [m]) [x]
+      = GV.coeff (applyOp .fermion (mulOp .fermion A B) [m]) [x] :=
+    Jel.mul_compose (jwFermion tol A) (jwFermion tol B) A B
+      (fun tc h => (jwFermion_canon_valid tol htol A tc h).2) (fun tc h => (jwFermion_canon_valid tol htol B tc h).2)
+      (fun y x' => jw_exact tol htol A hA hokA y x') (fun y x' => jw_exact tol htol B hB hokB y x') m x
+  refine ⟨h1, ?_⟩
+  rw [h1]
+  exact jw_exact tol htol _ (Jel.mulOpF_keys (fun tc h => hA tc h) (fun tc h => hB tc h)) hokAB m x
+
+/-- **linearity**: `jordan_wigner(A + c B)` has the matrix elements of `jordan_wigner(A) + c jordan_wigner(B)` -/
+theorem jw_linear (tol : Rat) (htol : tol * tol ≤ 1 / 4) (A B : Model.Op) (c : GQ)
+    (hA : ∀ tc ∈ A, ∀ f ∈ tc.1, f.2 ≤ 1) (hB : ∀ tc ∈ B, ∀ f ∈ tc.1, f.2 ≤ 1)
+    (hokA : jwFermionOk tol A = true) (hokB : jwFermionOk tol B = true)
+    (hadd : iaddOk tol A (smul c B) = true) (hokS : jwFermionOk tol (iadd tol A (smul c B)) = true) (m x : Nat) :
+    GV.coeff (applyOp .qubit (jwFermion tol (iadd tol A (smul c B))) [m]) [x]
+      = GV.coeff (applyOp .qubit (jwFermion tol A) [m]) [x] + c * GV.coeff (applyOp .qubit (jwFermion tol B) [m]) [x] := by
+  have hS : ∀ tc ∈ iadd tol A (smul c B), ∀ f ∈ tc.1, f.2 ≤ 1 :=
+    Jel.iadd_keys (P := Jel.Ladder) tol hA (Jel.smul_keys (P := Jel.Ladder) c hB)
+  rw [jw_exact tol htol _ hS hokS m x, jw_exact tol htol A hA hokA m x, jw_exact tol htol B hB hokB m x]
+  change den .fermion _ _ _ = den .fermion _ _ _ + c * den .fermion _ _ _
+  rw [den_iadd .fermion tol _ _ _ _ hadd, Sem.den_smul]
+
+/-- **Hermiticity is preserved**: if the FermionOperator `A` is Hermitian as an operator
+(`⟨x|A|m⟩ = conj ⟨m|A|x⟩` for all basis states) then so is `jordan_wigner(A)`, and conversely (the transform is faithful) -/
+theorem jw_hermitian_iff (tol : Rat) (htol : tol * tol ≤ 1 / 4) (A : Model.Op)
+    (hA : ∀ tc ∈ A, ∀ f ∈ tc.1, f.2 ≤ 1) (hok : jwFermionOk tol A = true) :
+    (∀ m x, GV.coeff (applyOp .qubit (jwFermion tol A) [m]) [x]
+        = (GV.coeff (applyOp .qubit (jwFermion tol A) [x]) [m]).conj)
+    ↔ (∀ m x, GV.coeff (applyOp .fermion A [m]) [x] = (GV.coeff (applyOp .fermion A [x]) [m]).conj) := by
+  constructor
+  · intro h m x
+    rw [← jw_exact tol htol A hA hok m x, ← jw_exact tol htol A hA hok x m]; exact h m x
+  · intro h m x
+    rw [jw_exact tol htol A hA hok m x, jw_exact tol htol A hA hok x m]; exact h m x
+
+/-- **faithfulness**: two FermionOperators have the same Jordan-Wigner image (as operators) exactly when they are the
+same operator -/
+theorem jw_faithful (tol : Rat) (htol : tol * tol ≤ 1 / 4) (A B : Model.Op)
+    (hA : ∀ tc ∈ A, ∀ f ∈ tc.1, f.2 ≤ 1) (hB : ∀ tc ∈ B, ∀ f ∈ tc.1, f.2 ≤ 1)
+    (hokA : jwFermionOk tol A = true) (hokB : jwFermionOk tol B = true) :
+    (∀ m x, GV.coeff (applyOp .qubit (jwFermion tol A) [m]) [x] = GV.coeff (applyOp .qubit (jwFermion tol B) [m]) [x])
+    ↔ (∀ m x, GV.coeff (applyOp .fermion A [m]) [x] = GV.coeff (applyOp .fermion B [m]) [x]) := by
+  constructor
+  · intro h m x
+    rw [← jw_exact tol htol A hA hokA m x, ← jw_exact tol htol B hB hokB m x]; exact h m x
+  · intro h m x
+    rw [jw_exact tol htol A hA hokA m x, jw_exact tol htol B hB hokB m x]; exact h m x
+
 /-! ### non-vacuity -/
+
+/-- the exact-regime hypotheses of `jw_multiplicative` / `jw_linear` on concrete operators with cancellations -/
+example :
+    let A : Model.Op := [([(2, 1), (0, 0)], ⟨mkRat 1 2, 1⟩), ([(1, 1)], ⟨-2, 0⟩)]
+    let B : Model.Op := [([(0, 1), (2, 0)], ⟨mkRat 3 4, 0⟩), ([(1, 0), (1, 1)], ⟨0, -1⟩)]
+    jwFermionOk Generated.eqTolerance A = true ∧ jwFermionOk Generated.eqTolerance B = true
+    ∧ jwFermionOk Generated.eqTolerance (mulOp .fermion A B) = true
+    ∧ iaddOk Generated.eqTolerance A (smul ⟨0, 2⟩ B) = true
+    ∧ jwFermionOk Generated.eqTolerance (iadd Generated.eqTolerance A (smul ⟨0, 2⟩ B)) = true := by
+  intro A B
+  refine ⟨by decide +kernel, by decide +kernel, by decide +kernel, by decide +kernel, by decide +kernel⟩
+
 
 /-- the threshold the driver runs with satisfies the hypothesis of the theorems -/
 example : Generated.eqTolerance * Generated.eqTolerance ≤ 1 / 4 := by
